@@ -107,7 +107,7 @@ func parseSingleConstraint(c string) ([]*constraint, error) {
 	}
 
 	// Handle x-range (1.x, 1.2.x)
-	if strings.Contains(c, "x") || strings.Contains(c, "X") {
+	if isXRange(c) {
 		return parseXRange(c)
 	}
 
@@ -305,4 +305,19 @@ func (c *constraint) matches(version *Version) bool {
 	default:
 		return false
 	}
+}
+
+// isXRange reports whether one of the dot-separated components of the numeric core of c
+// (the part before any pre-release or build metadata) is the wildcard x or X.
+func isXRange(c string) bool {
+	core := c
+	if i := strings.IndexAny(core, "-+"); i >= 0 {
+		core = core[:i]
+	}
+	for _, part := range strings.Split(core, ".") {
+		if part == "x" || part == "X" {
+			return true
+		}
+	}
+	return false
 }
